@@ -91,7 +91,7 @@ def str_match_to_if(q, head):
     q.note('R30', 'match on string literals -> if / else-if chain over crate::xl::str_eq (same arms, same order)')
 
 
-def build(ctx):
+def build(ctx, extra_per='', extra_util='', extra_portfolio='', extra_top='', extra_head='', macros=''):
     p = bk.parts(ctx)
     fxt = Src(ctx, 'peripheral/broker/fx_tracker.rs').cut_tests().standard()
     fxt.replace("use crate::rust_decimal::{prelude::One, Decimal};", "use crate::rust_decimal::Decimal;", 'R1')
@@ -134,10 +134,12 @@ def build(ctx):
              "use crate::portfolio::{Affiliate, Currency, TxAction};\nuse crate::util::basic::SError;\nuse crate::time::Date;\nuse crate::rust_decimal::Decimal;\nuse vstd::std_specs::iter::IteratorSpec;\n")
     per = (mod('sheet_common', sc.text())
            + mod('broker', mod('broker_tx', btx.text(), '') + mod('fx_tracker', fxt.text(), '')
-                 + "pub use self::broker_tx::*;\npub use self::fx_tracker::*;\n" + br.text() + mod('questrade', use_q + q.text())))
+                 + "pub use self::broker_tx::*;\npub use self::fx_tracker::*;\n" + br.text() + mod('questrade', use_q + q.text())) + extra_per)
     d = os.path.join(os.path.dirname(os.path.dirname(os.path.abspath(__file__))), 'shim')
-    head = shim('base', 'std').replace(MARKER, '') + open(os.path.join(d, 'xl_stubs.rs')).read() + MARKER
-    return (head + "verus! {\n" + bk.assemble(p, extra_top=mod('peripheral', per))
+    head = shim('base', 'std').replace(MARKER, '') + open(os.path.join(d, 'xl_stubs.rs')).read() + extra_head + MARKER
+    if macros:
+        head = head.replace('verus! {\n/// Trusted contracts for std', macros + 'verus! {\n/// Trusted contracts for std', 1)
+    return (head + "verus! {\n" + bk.assemble(p, extra_util=extra_util, extra_portfolio=extra_portfolio, extra_top=mod('peripheral', per) + extra_top)
             + "} // verus!\nfn main() {}\n")
 
 
